@@ -271,7 +271,7 @@ def oracle(run: Run, c, impl):
         if not (de <= 2e-9 * revs and dh <= 2e-9 * revs):
             fails.append(("conservation", f"two-body propagation changed the orbital energy by {de:.3g} and the angular momentum by {dh:.3g} (relative) ({desc})"))
     if "kepler_half_twice" in o:
-        same("kepler-compose", o["kepler"], o["kepler_half_twice"], "closed-form solution in one step against two steps", pt=5e-6 * revs, vt=5e-9 * revs)
+        same("kepler-compose", o["kepler"], o["kepler_half_twice"], "closed-form solution in one step against two steps", pt=5e-6 * revs + 2e-10 * ob["a"] * revs, vt=5e-9 * revs)
     if c["kind"] == "batch":
         for k, (b, s) in enumerate(zip(o["batch"], o["single"])):
             same("batch", b, s, f"column {k} of a batch of {c['K']} ({c['layout']} layout) against the same state propagated alone", pt=max(ptol, 2e-5), vt=max(vtol, 2e-8))
